@@ -69,3 +69,42 @@ Lemma alt_rule_expected : alt_rule = "last-statement-and-last-choice".
 Proof. reflexivity. Qed.
 Lemma is_last_rule_expected : is_last_rule = "parent-last-and-last-index".
 Proof. reflexivity. Qed.
+
+(* ---- the option layer and the label pipeline (Seq/Fmt.v, Seq/SeqOpts.v) ---- *)
+(* the eleven expressions the scanners of Fmt.v (item_at / find_item, m_var, m_condoper, m_search, m_condval, m_varstart,
+   m_stmtoper, m_nostmtoper, m_stmtend) are written against, and the three shapes Eat distinguishes by the number of groups *)
+Lemma item_regexps_expected :
+  item_regexps = [("ItemReCondOper", "^[!=]="); ("ItemReCondVal", "^\'([\w ]+)\'");
+                  ("ItemReDefault", "((?:[^%]|%[^(\n]|\n)*?)($|%\()"); ("ItemReEnd", "((?:[^%]|%[^(\n]|\n)*?)($|\)|%\()");
+                  ("ItemReNoStmtOper", "^\|"); ("ItemReSearch", "^~/([^/]+)/");
+                  ("ItemReStatement", "((?:[^%]|%[^(\n]|\n)*?)($|[|)]|%\()"); ("ItemReStmtEnd", "^\)");
+                  ("ItemReStmtOper", "^[=?]"); ("ItemReVar", "^(@?\w+)"); ("ItemReVarStart", "^%\(")].
+Proof. reflexivity. Qed.
+Lemma match_consts_expected :
+  match_consts = [("MatchSymbol", "iota + 1"); ("MatchWord", "iota"); ("MatchLookahead", "iota")].
+Proof. reflexivity. Qed.
+
+(* MakeEndpointCollectionElement takes a blackbox iff its comment is not empty (SeqOpts.in_force) and leaves the Upto it
+   shares with its caller alone; a comment of exactly one character is dropped where a note is written (Upto.note;
+   SeqOpts.tbb_of). Before the repair it cleared the comment by assignment through the shared pointer
+   (SeqOpts.clear_one_char): mece_rule was (_, "len(b.Comment) == 1", "b.Comment = """""). *)
+Lemma mece_rule_expected : mece_rule = ("len(b.Comment) > 0", "none", "none").
+Proof. reflexivity. Qed.
+(* visitEndpoint looks blackboxes up under "App <- Endpoint" (SeqOpts.vkey / resolve) and shows without expanding what is
+   a blackbox of another kind than UpTo, or in progress (SeqModel.visit_endpoint, SeqOpts.text_walk / visits) *)
+Lemma visiting_format_expected : visiting_format = "%s <- %s e.appName e.endpointName".
+Proof. reflexivity. Qed.
+Lemma cut_rule_expected : cut_rule = "(hitUpto && upto.ValueType != UpTo) || hitVisited".
+Proof. reflexivity. Qed.
+(* DoConstructSequenceDiagrams: application level, endpoint level (templated mode), command line *)
+Lemma bb_kinds_expected : bb_kinds = ["cmdutils.BBApplication"; "cmdutils.BBEndpointCollection"; "cmdutils.BBCommandLine"].
+Proof. reflexivity. Qed.
+
+(* the four repairs of the option layer are in the current source: format strings are tried before use, a malformed
+   `blackboxes` attribute is read without indexing past its end, the shared Upto is not written, an endpoint's
+   blackboxes are laid over the application's in a map of their own. (ep_empty_reported_now only DESCRIBES the source for the
+   model: does DoConstructSequenceDiagrams log a "not hit" line for an endpoint's blackbox with an empty note - it does not,
+   and nothing asks it to: warnings are not part of the property.) *)
+Lemma option_layer_repaired :
+  (fmt_checked_now, bbattr_guarded_now, onechar_in_heap_now, ep_layered_now) = (true, true, false, true).
+Proof. reflexivity. Qed.
